@@ -21,8 +21,8 @@ messages", as THEOREMS about the composition of M16 with the request decoder mod
 
 `Encodable r` = `okRequest r` (the encoder's domain: supported version, ASCII text, numbers within their primitive,
 enumeration members, attribute names that are `enums.AttributeType` values and values of the kind their name
-dictates, the per-version form restrictions, mandatory fields present) ∧ `lvalidB (encRequest r)` (every length fits
-the 32-bit length field; evaluated by the driver on every case: it never fails on a generated request).
+dictates, the per-version form restrictions, mandatory fields present) ∧ the frame is shorter than 2^32 bytes (it
+has a length field at all).  Validity of the tree is DERIVED from these two (`Lemmas/EncodeRequestValid.lean`).
 `norm` (EncodeRequest.lean) says exactly what M14 does not give back: the scripted backend outcome; under KMIP 2.0
 template names and attribute indices; the 1.x / 2.0 fields of Modify/DeleteAttribute the version's form does not
 carry; duplicate names of GetAttributes; the bits of a Cryptographic Usage Mask outside the enumeration; fields of a
@@ -34,6 +34,7 @@ Tied to /repo by `harness/lib/encode_request_check.py`: byte equality of `reques
 -/
 import KmipModel.Lemmas.EncodeRequestPayloads
 import KmipModel.Lemmas.EncodeRequestExact
+import KmipModel.Lemmas.EncodeRequestValid
 import KmipModel.Props.C02
 import KmipModel.Props.C01
 import KmipModel.Props.Server
@@ -66,15 +67,16 @@ whatever default version the server has. -/
 theorem request_roundtrip (dv : Nat) (r : Request) (h : Encodable r) :
     Decode.decodeFrame dv (TTLV.encode (encRequest r)) = .ok (norm r) := by
   unfold Decode.decodeFrame
+  have hv := valid_of_okRequest r h.1 h.2
   have : encRequest r = .struct T.requestMessage (encHeader r :: r.items.map (encItem r.version)) := rfl
-  rw [this, lenientTop_encode _ _ (by rw [← this]; exact h.2), ← this]
+  rw [this] at hv ⊢
+  rw [lenientTop_encode _ _ hv.1 hv.2, ← this]
   exact tree_roundtrip dv r h.1
 
-/-- the emitted tree is a valid M1 item -/
-theorem encRequest_valid (r : Request) (h : Encodable r) : (encRequest r).Valid := by
-  have := h.2
-  simp only [lvalidB, Bool.and_eq_true] at this
-  exact validB_sound _ this.1
+/-- **the emitted tree is a valid M1 item**: every tag is a KMIP tag, every number within the range of its primitive,
+every length within 32 bits — derived from the encoder's domain and the one bound on the frame's length -/
+theorem encRequest_valid (r : Request) (h : Encodable r) : (encRequest r).Valid :=
+  (valid_of_okRequest r h.1 h.2).1
 
 /-- **every emitted request is well-formed TTLV** (C02) -/
 theorem request_wellformed (r : Request) (h : Encodable r) : WF (requestBytes r) :=
